@@ -18,7 +18,8 @@ RULE = ("(A) namespace-well-formed Element trees built through the public API (m
         ' ; caller trees that used Element.setnil()'
         ' ; a caller header using the envelope prefix (mustUnderstand)'
         ' ; white-space-only values; one client switched through all sixteen settings'
-        ' ; a header part of a namespace without prefix (dict and tuple); a caller header using the envelope\'s xsi prefix')
+        ' ; a header part of a namespace without prefix (dict and tuple); a caller header using the envelope\'s xsi prefix'
+        ' ; empty children and the place of text in a caller\'s element')
 ASSUMPTIONS = ["PrefixNormalizer numbers prefixes in set iteration order: the model takes that order from the "
                "observed result (theorems do not depend on it)"]
 PARTIAL = [{"theorem": "normalize_preserves_infoset / refit_preserves_infoset (whole-tree statements)",
